@@ -31,7 +31,8 @@ CONSTANTS Ident,      \* "kitty" | "konsole" | "other"
           Fams,       \* layout families explored, subset of {"P","Q","R","S","O","L","F","T","I"}
           WithBad,    \* explore RedrawBad
           WithInv,    \* explore redraws after invalidating one of the widgets shown
-          Dyn         \* explore NewWidget / DropWidget (otherwise all three widgets live from the start)
+          Dyn,        \* explore NewWidget / DropWidget (otherwise all three widgets live from the start)
+          WithDC      \* explore direct user calls of clear_images([widget], now=...) between redraws
 
 ScrW == 8
 ScrH == 5
@@ -42,8 +43,8 @@ NatW(w) == IF w = 2 THEN 2 ELSE 4
 NatH(w) == IF w = 1 THEN 3 ELSE 2
 MaxStrip == 3
 
-VARIABLES T, cv, cdis, wdis, scr, started, last, ulast, same, wdt, nxt, free, ok, taint, out
-vars == <<T, cv, cdis, wdis, scr, started, last, ulast, same, wdt, nxt, free, ok, taint, out>>
+VARIABLES T, cv, cdis, wdis, scr, started, last, ulast, same, wdt, nxt, free, ok, taint, dc, out
+vars == <<T, cv, cdis, wdis, scr, started, last, ulast, same, wdt, nxt, free, ok, taint, dc, out>>
 
 (* ------------------------------------------------------------- layouts *)
 
@@ -235,23 +236,23 @@ Init ==
                                            z |-> IF StyleOf(w) = "kitty" THEN ZSeq[w] ELSE 0]]
                  /\ nxt = IF Style3 = "kitty" THEN -2 ELSE 2
   /\ free = {}
-  /\ ok = FALSE /\ taint = FALSE
+  /\ ok = FALSE /\ taint = FALSE /\ dc = FALSE
   /\ out = [op |-> "init", arg |-> NoneP, toks |-> <<>>, res |-> ""]
 
 ClearImages(n) == IF Supported(Ident) THEN [i \in 1..n |-> KTok(XDelAll)] ELSE <<>>
 BumpN(d, n) == IF Supported(Ident) THEN (d + n) % 3 ELSE d
 
 Start ==
-  /\ ~started
+  /\ ~started /\ ~dc
   /\ started' = TRUE
   /\ T' = Fold(T, ClearImages(1), GFX, 1)
   /\ cdis' = BumpN(cdis, 1)
   /\ ok' = FALSE
   /\ out' = [op |-> "start", arg |-> NoneP, toks |-> ClearImages(1), res |-> ""]
-  /\ UNCHANGED <<cv, wdis, scr, last, ulast, same, wdt, nxt, free, taint>>
+  /\ UNCHANGED <<cv, wdis, scr, last, ulast, same, wdt, nxt, free, taint, dc>>
 
 Stop ==
-  /\ started
+  /\ started /\ ~dc
   /\ started' = FALSE
   /\ T' = Fold(T, ClearImages(2), GFX, 1)
   /\ cdis' = BumpN(cdis, 2)
@@ -259,17 +260,17 @@ Stop ==
   /\ ok' = FALSE
   /\ out' = [op |-> "stop", arg |-> NoneP, toks |-> ClearImages(2), res |-> ""]
   /\ taint' = FALSE
-  /\ UNCHANGED <<cv, wdis, last, ulast, same, wdt, nxt, free>>
+  /\ UNCHANGED <<cv, wdis, last, ulast, same, wdt, nxt, free, dc>>
 
 Clear ==
-  /\ started
+  /\ started /\ ~dc
   /\ T' = Fold(T, ClearImages(1), GFX, 1)
   /\ cdis' = BumpN(cdis, 1)
   /\ scr' = <<>>
   /\ ok' = FALSE
   /\ out' = [op |-> "clear", arg |-> NoneP, toks |-> ClearImages(1), res |-> ""]
   /\ taint' = FALSE
-  /\ UNCHANGED <<cv, wdis, started, last, ulast, same, wdt, nxt, free>>
+  /\ UNCHANGED <<cv, wdis, started, last, ulast, same, wdt, nxt, free, dc>>
 
 \* (values used more than once are bound through singleton sets: TLC evaluates them once)
 DoRedraw(p, bad, inv) ==
@@ -290,6 +291,7 @@ DoRedraw(p, bad, inv) ==
      /\ free' = free \cup Freed(wdt, refd)
      /\ taint' = (taint \/ bad)
      /\ ok' = (~bad /\ ~taint)
+     /\ dc' = FALSE
      /\ out' = [op |-> IF bad THEN "bad" ELSE "redraw", arg |-> [p EXCEPT !.d = p.d + 10 * inv], toks |-> toks,
                 res |-> IF bad THEN "ValueError" ELSE ""]
      /\ UNCHANGED <<started, nxt>>
@@ -301,12 +303,12 @@ Redraw == \E p \in Params : started /\ Usable(p) /\ \E inv \in {0} \cup (IF With
 \* cviews diff and its deletions.  Two such failures in a row can bring a widget's disguise back to
 \* the value urwid cached (found by TLC), so the exactness claim is suspended (taint) until the
 \* next clear()/stop() drops urwid's line cache; bracketing is required regardless.
-RedrawBad == WithBad /\ \E p \in Params : started /\ Usable(p) /\ DoRedraw(p, TRUE, 0)
+RedrawBad == WithBad /\ ~dc /\ \E p \in Params : started /\ Usable(p) /\ DoRedraw(p, TRUE, 0)
 
 \* draw_screen with the very canvas object passed last: no cviews diff; urwid returns early if
 \* its cache belongs to that canvas, otherwise draws the rows that differ from its cache
 RedrawSame ==
-  /\ started /\ last # NoneP
+  /\ started /\ last # NoneP /\ ~dc
   /\ \E wd \in {WD} :
      \E quick \in {scr # <<>> /\ same} :
      \E sig \in {SigOf(wd, last, Dis)} :
@@ -319,36 +321,67 @@ RedrawSame ==
         /\ free' = free \cup Freed(wdt, refd)
         /\ ok' = IF quick THEN ok ELSE ~taint
         /\ out' = [op |-> "same", arg |-> last, toks |-> toks, res |-> ""]
-  /\ UNCHANGED <<cv, cdis, wdis, started, last, nxt, taint>>
+  /\ UNCHANGED <<cv, cdis, wdis, started, last, nxt, taint, dc>>
 
+\* cls: the widget is an instance of UrwidImage itself (0), of a subclass (1) or of a subclass of a
+\* subclass (2): the allocator is ONE counter and ONE free pool shared by all of them
 NewWidget ==
-  Dyn /\ \E w \in Slots :
+  Dyn /\ ~dc /\ \E w \in Slots, cls \in 0..2 :
     /\ ~wdt[w].alive
     /\ IF StyleOf(w) # "kitty"
          THEN /\ wdt' = [wdt EXCEPT ![w] = [alive |-> TRUE, dropped |-> FALSE, z |-> 0]]
-              /\ out' = [op |-> "new", arg |-> Par("w", w, 0, 0, 0), toks |-> <<>>, res |-> ""]
+              /\ out' = [op |-> "new", arg |-> Par("w", w, 0, cls, 0), toks |-> <<>>, res |-> ""]
               /\ UNCHANGED <<nxt, free>>
          ELSE IF AllocOutcomes(Bits, nxt, free) = {}
-           THEN /\ out' = [op |-> "new", arg |-> Par("w", w, 0, 0, 0), toks |-> <<>>, res |-> "UrwidImageError"]
+           THEN /\ out' = [op |-> "new", arg |-> Par("w", w, 0, cls, 0), toks |-> <<>>, res |-> "UrwidImageError"]
                 /\ UNCHANGED <<wdt, nxt, free>>
            ELSE \E o \in AllocOutcomes(Bits, nxt, free) :
                   /\ wdt' = [wdt EXCEPT ![w] = [alive |-> TRUE, dropped |-> FALSE, z |-> o.z]]
                   /\ nxt' = o.next /\ free' = o.free
-                  /\ out' = [op |-> "new", arg |-> Par("w", w, o.z, 0, 0), toks |-> <<>>, res |-> ""]
+                  /\ out' = [op |-> "new", arg |-> Par("w", w, o.z, cls, 0), toks |-> <<>>, res |-> ""]
     /\ wdis' = [wdis EXCEPT ![w] = 0]
-    /\ UNCHANGED <<T, cv, cdis, scr, started, last, ulast, same, ok, taint>>
+    /\ UNCHANGED <<T, cv, cdis, scr, started, last, ulast, same, ok, taint, dc>>
 
 DropWidget ==
-  Dyn /\ \E w \in Slots :
+  Dyn /\ ~dc /\ \E w \in Slots :
     /\ wdt[w].alive /\ ~wdt[w].dropped
     /\ \E wt \in {[wdt EXCEPT ![w].dropped = TRUE]} :
        \E refd \in {Refd(last, ulast, cv)} :
          /\ wdt' = Reaped(wt, refd)
          /\ free' = free \cup Freed(wt, refd)
     /\ out' = [op |-> "drop", arg |-> Par("w", w, 0, 0, 0), toks |-> <<>>, res |-> ""]
-    /\ UNCHANGED <<T, cv, cdis, wdis, scr, started, last, ulast, same, nxt, ok, taint>>
+    /\ UNCHANGED <<T, cv, cdis, wdis, scr, started, last, ulast, same, nxt, ok, taint, dc>>
 
-Next == Start \/ Stop \/ Clear \/ Redraw \/ RedrawSame \/ RedrawBad \/ NewWidget \/ DropWidget
+\* Direct user calls between redraws: screen.clear_images(now=...) deletes every image and changes the
+\* canvas-class disguise; screen.clear_images(widget, now=...) deletes the images of one kitty widget
+\* and changes that widget's disguise - whether the delete command is written at once (now=True, straight
+\* to the tty) or with the screen's buffered output.  urwid's line cache is NOT dropped: only the changed
+\* disguise makes the next redraw send the image lines again.  Explored one call at a time (dc): the
+\* call is followed by a Redraw with a NEW canvas (three calls in a row would bring the modulo-3
+\* disguise back; drawing the SAME canvas object again makes urwid return early - both outside the claim;
+\* for the same reason the canvas on screen must be composite: a bare leaf widget rendered again
+\* yields its cached canvas, i.e. the same object).
+ClearImagesAll ==
+  /\ WithDC /\ started /\ ~dc /\ last # NoneP /\ ~TopLeafOf[last]
+  /\ \E now \in BOOLEAN :
+       /\ T' = Fold(T, ClearImages(1), GFX, 1)
+       /\ cdis' = BumpN(cdis, 1)
+       /\ out' = [op |-> "climg", arg |-> Par("c", 0, IF now THEN 1 ELSE 0, 0, 0), toks |-> ClearImages(1), res |-> ""]
+  /\ dc' = TRUE /\ ok' = FALSE
+  /\ UNCHANGED <<cv, wdis, scr, started, last, ulast, same, wdt, nxt, free, taint>>
+
+ClearImagesOf ==
+  /\ WithDC /\ started /\ ~dc /\ last # NoneP /\ ~TopLeafOf[last] /\ Supported(Ident)
+  /\ \E w \in Slots, now \in BOOLEAN :
+       /\ wdt[w].alive /\ ~wdt[w].dropped /\ StyleOf(w) = "kitty"
+       /\ T' = Fold(T, <<KTok(XDelZ(wdt[w].z))>>, GFX, 1)
+       /\ wdis' = [wdis EXCEPT ![w] = Bump(@)]
+       /\ out' = [op |-> "climg", arg |-> Par("c", w, IF now THEN 1 ELSE 0, 0, 0),
+                  toks |-> <<KTok(XDelZ(wdt[w].z))>>, res |-> ""]
+  /\ dc' = TRUE /\ ok' = FALSE
+  /\ UNCHANGED <<cv, cdis, scr, started, last, ulast, same, wdt, nxt, free, taint>>
+
+Next == ClearImagesAll \/ ClearImagesOf \/ Start \/ Stop \/ Clear \/ Redraw \/ RedrawSame \/ RedrawBad \/ NewWidget \/ DropWidget
 Spec == Init /\ [][Next]_vars
 
 (* ---------------------------------------------------------- properties *)
@@ -364,6 +397,10 @@ OutputBracketed == IsRedrawOp => Bracketed(out.toks) /\ T.sync = 0
 DeletionsFirst == IsRedrawOp => DeletesFirst(out.toks, GFX)
 ClearedOnStartStopClear ==
   out.op \in {"start", "stop", "clear"} /\ Supported(Ident) => HasDeleteAll(out.toks, GFX) /\ T.pl = <<>>
+ClearedByDirectCall ==
+  out.op = "climg" /\ Supported(Ident) =>
+    IF out.arg.a = 0 THEN T.pl = <<>>
+    ELSE \A i \in DOMAIN T.pl : ~(T.pl[i].proto = "kitty" /\ T.pl[i].z = wdt[out.arg.a].z)
 NoGraphicsIfUnsupported == ~Supported(Ident) => T.pl = <<>> /\ NoGraphics(out.toks)
 TerminalSane == T.err = "" /\ T.scrolls = 0 /\ T.sync = 0
 
@@ -380,17 +417,20 @@ NoOrphanZ == \A i \in DOMAIN T.pl : T.pl[i].proto = "kitty" => \E w \in LiveKitt
 (* ------------------------------------------------------------ TLC plumbing *)
 
 PlSet == Shown(T, GFX)
-View == <<PlSet, cv, cdis, wdis, scr, started, last, ulast, same, wdt, nxt, free, ok, taint>>
+View == <<PlSet, cv, cdis, wdis, scr, started, last, ulast, same, wdt, nxt, free, ok, taint, dc>>
 
 \* Edge dump for spec -> code replay (MC_UrwidScreen_edges.cfg): explored under a COARSE view
 \* (layout drawn last x started x urwid has a line cache x liveness of the widgets), so that every
 \* pair (layout on screen, next operation / next layout) is generated once.  The replay needs the
 \* operation sequences only - each real step is judged by Trace_UrwidScreen, not by the edge.
-CoarseObs == [last |-> last, started |-> started, cache |-> scr # <<>>, taint |-> taint,
+CoarseObs == [last |-> last, started |-> started, cache |-> scr # <<>>, taint |-> taint, dc |-> dc,
               live |-> [w \in Slots |-> IF ~wdt[w].alive THEN 0 ELSE IF wdt[w].dropped THEN 2 ELSE 1]]
 CoarseView == CoarseObs
 Dump == PrintT(<<"EDGE", ToJson([from |-> CoarseObs, op |-> [op |-> out'.op, arg |-> out'.arg, res |-> out'.res],
                                   to |-> CoarseObs'])>>)
+\* in the edge dump a direct clear is followed by a NEW canvas of the SAME layout (image lines
+\* textually unchanged: the case in which only the disguise can make urwid send them again)
+DumpL == (dc /\ out'.op = "redraw" => out'.arg = last) /\ Dump
 \* the layouts themselves, printed once: the driver builds the real urwid trees from these
 LayoutTable == \A p \in Params : PrintT(<<"LAYOUT", ToJson([p |-> p, lay |-> Lay(p)])>>)
 InitDump == Init /\ LayoutTable /\ PrintT(<<"INIT", ToJson(CoarseObs)>>)
